@@ -2,8 +2,12 @@
    Proved for all inputs: table contents, logarithm formulas, absence of panics for all 2^64 bit patterns,
    independence of the buffer state, the exact-integer path, the positional formatter, soundness of the
    certificate checker that the engine "ryu" applies to every sampled output.
-   NOT proved: that the interval search of float64ToDecimal always returns a certificate-accepted pair
-   (C16_shortest_full_statement below) — this is tied by certified sampling + comparison with strconv. *)
+   Interval search (items 7-10): the fixed-point multiplications are exact for all exponents and mantissas
+   except two (proved, with the exceptions exhibited); all of step 4 is correct relative to hand-over
+   conditions on step 3; the change of scale to the checker is proved.
+   NOT proved: that f2d_step3's trailing-zero flags and vp adjustment satisfy the hand-over conditions for all
+   inputs, and the exact-integer path's acceptance by the checker — so C16_shortest_full_statement below is
+   still a Definition; it is tied by certified sampling + comparison with strconv. *)
 From QF Require Import Base.Prelude Gen.GenConsts Gen.GenRyu Model.Ryu.
 From QF Require Import Proofs.RyuTables Proofs.RyuArith Proofs.RyuAppendF Proofs.RyuExactInt Proofs.RyuNoPanic
                        Proofs.RyuShortest Proofs.RyuIntervalFrac Proofs.RyuIntervalMul
@@ -200,6 +204,46 @@ Example C16_step4_example :          (* 0.1: the premises hold for what the mode
   | _, _ => False
   end.
 Proof. vm_compute. repeat split; discriminate || reflexivity. Qed.
+
+(* 9. From step 3 to the checker: if what f2d_step3 returns satisfies the hand-over conditions at the scale
+   of its exponent (and acceptBounds is the parity of the mantissa, s_e10 the planned exponent), then
+   float64ToDecimal returns a pair accepted by shortest_b for the bit pattern exp * 2^52 + mant — through ALL
+   of step 4 and the change of scale between the algorithm (A : B 10^n) and the checker (scale_dec/scale_flt).
+   PARTIAL: the premise is proved nowhere for all inputs yet (it is what stage 2 has to deliver: the meaning
+   of the trailing-zero flags and of the vp adjustment, branch by branch); handover_b evaluates it, and it
+   holds on every sampled float except the two of item 7, where vr is off by one. *)
+Theorem C16_shortest_from_handover_partial (mant exp : N) :
+  mant < 2 ^ 52 -> exp <= 2046 -> ~ (exp = 0 /\ mant = 0) ->
+  let m2 := if exp =? 0 then mant else 2 ^ 52 + mant in
+  let mv := 4 * m2 in
+  let mm := mv - (if (mant =? 0) && (1 <? exp) then 1 else 2) in
+  (forall pl st ab, plan_of exp = Ok pl -> f2d_step3 mant exp = Ok (st, ab) ->
+     ab = N.even m2 /\ s_e10 st = p_e10 pl /\
+     handover ab mv mm (mv + 2) (fst (ratio pl (e2_of exp))) (snd (ratio pl (e2_of exp))) st) ->
+  exists m e, float64ToDecimal mant exp = Ok (m, e) /\ shortest_b (exp * 2 ^ 52 + mant) m e = true.
+Proof. exact (f2d_shortest_from_handover mant exp). Qed.
+Print Assumptions C16_shortest_from_handover_partial.
+Example C16_shortest_from_handover_example :      (* the premise holds for 0.1, so the theorem applies *)
+  exists m e, float64ToDecimal 0x999999999999A 1019 = Ok (m, e) /\
+              shortest_b (1019 * 2 ^ 52 + 0x999999999999A) m e = true.
+Proof.
+  apply C16_shortest_from_handover_partial; [reflexivity|discriminate|intros [K _]; discriminate K|].
+  intros pl st ab E1 E2.
+  assert (E1' : Ok pl = plan_of 1019) by (symmetry; exact E1). vm_compute in E1'. inversion E1'; subst pl. clear E1 E1'.
+  assert (E2' : Ok (st, ab) = f2d_step3 0x999999999999A 1019) by (symmetry; exact E2).
+  vm_compute in E2'. inversion E2'; subst st ab. clear E2 E2'.
+  split; [reflexivity|]. split; [reflexivity|].
+  apply handover_b_sound. vm_compute. reflexivity.
+Qed.
+
+(* 10. The two floats of item 7 (vr off by one; 0x1D89B2C4D2A82336 = 2.1789991853451517e-166 and
+   0x705DCA94E3990085 = 1.85006342392073e+233, and their negatives) still get a certified shortest decimal:
+   the wrong last digit of vr is removed before it can matter. *)
+Theorem C16_off_by_one_floats_ok :
+  f2d_certified_b (7233432835334966 - 2 ^ 52) 472 = true /\
+  f2d_certified_b (8385515147034757 - 2 ^ 52) 1797 = true.
+Proof. exact exception_floats_ok. Qed.
+Print Assumptions C16_off_by_one_floats_ok.
 
 (* The full statement (NOT proved): for every finite non-zero float the pair found by the interval search
    is accepted by the checker, i.e. the text is the shortest closest decimal.  The engine checks this on
